@@ -7,6 +7,18 @@ CLAUSE = ("after a replica action on the SQLite store is abandoned at any of its
           "action), never a mixture; a completed action is there after close and reopen")
 
 
+KNOWN = ("undo and sync are two transactions (the change, then the working-set rebuild): interrupted between them the "
+         "replica has the tasks and operations of the after-state with the working set of the before-state "
+         "(two-transaction-action)")
+
+
+def known_match(c):
+    probs = c["oracle"].get("problems", [])
+    if probs and all(p.startswith("[two-transaction-action]") for p in probs):
+        return KNOWN
+    return None
+
+
 def nontrivial(c):
     return c["features"].get("crash_points", 0) >= 5
 
@@ -23,7 +35,8 @@ def run(ck):
     synccheck.run_family(ck, "sqlite-crash", 120 if quick else 2500, CLAUSE, nontrivial,
                          extra_args=["--maxlen", 6 if quick else 9], corpus=True,
                          module="Corr.StorageCorr", fn="check_stcase", ctype="(list sitem)", wf="wf_stcase",
-                         per_file=8, view="st_model_view")
+                         per_file=8, view="st_model_view",
+                         known_match=known_match if any(k.get("match", {}).get("tag") == "two-transaction-action" for k in ck.known_findings()) else None)
     kills(ck, 40 if quick else 600)
     cloudcheck.theorem_violation(ck, "C06", thm_ok)
     return ck.finish(
